@@ -8,15 +8,18 @@ def parseKind (s : String) : Option Kind :=
 
 def kindStr : Kind → String | .btc => "btc" | .evm => "evm" | .sub => "sub"
 
-/-- `head:fail:store[:crash]`; head = int | E | F ; returns the round and the crash field -/
+/-- `head:fail:store[:crash]`; head = int | E | F ; returns the round and the crash field.
+    `fail = p<i>`: handler `i` PANICS. The model of a panic is the death of the process at that point: handler `i`
+    was invoked and did not return nil (`fail = some i`), and nothing happens after it (`crash = some (i+1)`). -/
 def parseRound (s : String) : Option (Round × Option Nat) :=
   match s.splitOn ":" with
   | hd :: fl :: st :: rest => do
     let head ← if hd = "E" || hd = "F" then some none else (hd.toInt?).map some
-    let fail ← if fl = "n" then some none else (fl.toNat?).map some
+    let pan ← if fl.startsWith "p" then ((fl.drop 1).toString.toNat?).map some else some none
+    let fail ← if fl = "n" then some none else if pan.isSome then some pan else (fl.toNat?).map some
     let ok ← if st = "s" then some true else if st = "x" then some false else none
     let crash ← match rest with
-      | [] => some none
+      | [] => some (pan.map (· + 1))
       | [c] => (c.toNat?).map some
       | _ => none
     pure (⟨head, fail, ok⟩, crash)
